@@ -4,7 +4,7 @@ import vlib, s1, gen, s1eval
 PROP = "C05"
 EDITS = ["none", "deldir", "flip", "truncate", "append", "addfile", "adddir", "delete", "rename", "relink", "dangle", "swap_f2d",
          "swap_d2f", "below_norec", "uncopy", "rmobj", "rmart", "checkout_other", "lookalike", "movecache", "rmman", "emptied_rmman",
-         "uncommitted"]
+         "uncommitted", "same_size_old_mtime", "same_size_old_mtime", "rmobj_of_copy", "rmobj_of_copy"]
 
 
 def make_cases(rng, tier, n):
@@ -71,6 +71,24 @@ def make_cases(rng, tier, n):
             tracked = [f for f in files if any(f[1] == p or f[1].startswith(p + b"/") for p, fl, sp in arts if "s" not in fl and "r" not in fl)]
             if tracked:
                 ops.append(("uncopy", rng.choice(tracked)[1]))
+            else:
+                edit = "none"
+        elif edit in ("same_size_old_mtime", "rmobj_of_copy") and files:
+            # the workspace entry is a regular COPY of the committed bytes (copy strategy, or a link replaced by a copy) and then
+            #  - is replaced by other bytes of exactly the same size carrying an old timestamp (mv of an older version, cp -p, rsync -t), or
+            #  - loses its object in the cache (pruned / partly lost cache) while the manifest stays
+            tracked = [f for f in files if any(f[1] == p or f[1].startswith(p + b"/") for p, fl, sp in arts if "s" not in fl and "r" not in fl)
+                       and (edit == "rmobj_of_copy" or size_of(f[2]) > 0)]
+            if tracked:
+                f = rng.choice(tracked)
+                if strat == "l":
+                    ops.append(("uncopy", f[1]))
+                    if rng.random() < 0.5:
+                        ops.append(("status", []))
+                if edit == "same_size_old_mtime":
+                    ops.append(("writeold", f[1], "g:%d:%d" % (int(f[2].split(":")[1]) + 1 + rng.randrange(5), size_of(f[2]))))
+                else:
+                    ops.append(("rmobj", "p" + f[1].hex()))
             else:
                 edit = "none"
         elif edit == "lookalike" and files and strat == "l":
